@@ -44,6 +44,10 @@ Explained(e, M) ==
     [] e.op = "neg" -> GoodM(e, M, Neg(M))
     [] e.op = "add" -> IF SameShape(M, e.b) THEN GoodM(e, M, Add(M, e.b)) ELSE RejectedSize(e)
     [] e.op = "sub" -> IF SameShape(M, e.b) THEN GoodM(e, M, Sub(M, e.b)) ELSE RejectedSize(e)
+    \* aliasing: the same object on both sides of a by-reference operator
+    [] e.op = "add_self" -> GoodM(e, M, Add(M, M))
+    [] e.op = "sub_self" -> GoodM(e, M, Sub(M, M))
+    [] e.op = "matmul_self" -> IF M.r = M.c THEN GoodM(e, M, MatMul(M, M)) ELSE RejectedSize(e)
     [] e.op \in {"mul_scalar", "lmul_scalar"} -> GoodM(e, M, Scale(M, e.s))     \* matrix * s, and s * matrix (f64)
     [] e.op = "empty" -> ~e.panic /\ SameMat(e.rm, Empty)
     [] e.op = "div_scalar" -> GoodM(e, M, DivS(M, e.s))
